@@ -8,7 +8,7 @@ use crate::model::{F, MV};
 use proptest::prelude::*;
 use serde::{Deserialize, Serialize};
 
-pub const RULE: &str = "(list of length 0..10, and of length 60..200, callee) pairs: the callee is drawn from a table of lambdas of arity 1, 2, optional-index, rest and optional-plus-rest shape, closures, self-recursive (fact, fib) and mutually recursive late-bound (is_even / is_odd) named functions, predicates that fail on some element, non-boolean predicates, anonymous lambdas, and built-ins of every arity class (exactly one, one-or-two, at-least-one, exactly two); both equivalent forms are evaluated in one environment and must give the same value or both fail; reduce is compared with a left fold the harness assembles from single applications; recording callbacks expose the (element, index) protocol; the same recursion written with `n - 1 into f` and with `f(n - 1)` is compared at depths 0..990; functions that refer to each other and are local to a do-block / function body are used through every form. Non-trivial = non-empty list and a callee that is named-recursive, of arity != 1, or a built-in; distinct by (list, callee).";
+pub const RULE: &str = "(list of length 0..10, and of length 60..200, callee) pairs: the callee is drawn from a table of lambdas of arity 1, 2, optional-index, rest and optional-plus-rest shape, closures, self-recursive (fact, fib) and mutually recursive late-bound (is_even / is_odd) named functions, predicates that fail on some element, non-boolean predicates, anonymous lambdas, and built-ins of every arity class (exactly one, one-or-two, at-least-one, exactly two); both equivalent forms are evaluated in one environment and must give the same value or both fail; reduce is compared with a left fold the harness assembles from single applications, also from initial values that are functions; recording callbacks expose the (element, index) protocol; the same recursion written with `n - 1 into f` and with `f(n - 1)` is compared at depths 0..990; functions that refer to each other and are local to a do-block / function body are used through every form. Non-trivial = non-empty list and a callee that is named-recursive, of arity != 1, or a built-in; distinct by (list, callee).";
 pub const ASSUMPTIONS: &[&str] = &[
     "failure is compared by status (both forms fail / both succeed with equal values), not by message",
     "every/some are compared with the conjunction / disjunction only when the predicate succeeds with a boolean on every element",
@@ -375,6 +375,27 @@ impl Check for Forms {
                         MV::List(c.l.clone()).to_source(false),
                         c.init.to_source(false)
                     );
+                }
+                // the initial value is a value like any other - also when it is a function
+                let n = c.l.len() as f64;
+                for (src, want) in [
+                    ("reduce(l, (a, x) => a, inc)(5)", num(6.0)),
+                    ("reduce(l, (a, x) => (y => a(y) + 1), inc)(0)", num(n + 1.0)),
+                    ("reduce(l, (a, x, i) => (y => a(y) + i), clos)(0)", num(10.0 + n * (n - 1.0) / 2.0)),
+                    ("typeof(reduce(l, (a, x) => a, abs))", crate::model::mv::s("built-in function")),
+                    ("reduce(l, (a, x) => a, abs)(0 - 4)", num(4.0)),
+                ] {
+                    let got = sess.probe(src);
+                    if !same(&got, &Ok(want.clone())) {
+                        fail!(
+                            format!("reduce-function-initial:{}", status(&got)),
+                            "`{}` = {:?}, the left fold from that initial function gives {:?}; l = {}",
+                            src,
+                            got,
+                            want,
+                            MV::List(c.l.clone()).to_source(false)
+                        );
+                    }
                 }
             }
         }
